@@ -188,4 +188,28 @@ def prelude(tier):
     return res
 
 
-HARNESSES = [IntsToStrings(), StrToInt()]
+from checks.C02 import Delimited as _Delimited
+
+
+class DigitColumns(_Delimited):
+    """integer columns of parsed files: the fixed-width digit matrix (right-aligned windows over the raw buffer) and both str_to_int
+    paths; every batch is also presented in reversed row order (the result for one row never depends on the other rows)"""
+    name = "digit_columns"
+    functions = ("move_intervals_to_digit_array", "TextBufferExtractor.get_digit_array", "str_to_int (2-d digit matrix and ragged paths)",
+                 "DelimitedBuffer._get_field_by_number")
+    bounds = {"quick": "BED3 and chrom.sizes files, 1-3 records, integer fields of 1-12 digits with very unequal widths in one column "
+                       "(also: first record shorter than the column's widest value), both row orders, signed columns, LF/CRLF",
+              "thorough": "more width patterns"}
+
+    def skeletons(self, tier, seed):
+        out = []
+        for sk in super().skeletons(tier, seed):
+            if sk["fmt"] not in ("bed3", "chromsizes") or sk.get("header"):
+                continue
+            out.append(sk)
+            if len(sk["rows"]) > 1 and not sk.get("signed"):
+                out.append(dict(sk, rows=sk["rows"][::-1]))
+        return out
+
+
+HARNESSES = [IntsToStrings(), StrToInt(), DigitColumns()]
